@@ -21,7 +21,17 @@ assume pure func (v reflect.Value) Index(j int) reflect.Value
   requires v.Kind() == reflect.Array || v.Kind() == reflect.Slice || v.Kind() == reflect.String
   requires 0 <= j && j < v.Len()
 
+assume pure func (v reflect.Value) Type() reflect.Type
+
+assume pure func (v reflect.Value) Elem() reflect.Value
+
+assume pure func (v reflect.Value) IsNil() bool
+
+-- the dynamic type of what Interface() returns: the value's own type, except for a value of interface kind
+-- (reflect.Interface), where it is the type of the value the interface holds
 assume pure func (v reflect.Value) Interface() interface{}
+  ensures v.Kind() != reflect.Interface ==> reflect.TypeOf(result) == v.Type()
+  ensures v.Kind() == reflect.Interface && !v.IsNil() ==> reflect.TypeOf(result) == v.Elem().Type()
 
 assume func (w i.SafeWriter) Print(args ...interface{})
 
